@@ -61,9 +61,18 @@ def worker(job, r):
                 n2, m3 = rng.choice(mm)
                 m3.doc = s.doc
                 cases.append((nm + '+' + n2, m3))
+        # byte-level mutants of the honest encoding, re-interpreted by the reference parser
+        if cases[0][0] == 'honest':
+            base_raw = s.enc()
+            for _ in range(6):
+                m = bytearray(base_raw)
+                for _k in range(rng.choice([1, 1, 1, 2, 3])):
+                    pos = rng.randrange(4, len(m))
+                    m[pos] ^= 1 << rng.randrange(8)
+                cases.append(('byteflip', bytes(m)))
         for name, sig in cases:
             try:
-                raw = sig.enc()
+                raw = sig if isinstance(sig, bytes) else sig.enc()
                 model = R.parse_sig(raw)
             except (R.NotInDomain, R.TlvError):
                 r.count('skipped_reference_rejects')
